@@ -164,6 +164,9 @@ def run(prog, rep, tier):
 
     r2 = rep.rule("R09.2", "filters and rewrites on every emission path; suppress predicates have the stated truth tables")
     check_emit(prog, r2)
+    # the non-add-path and the add-path arm of process_nlri_change apply the same propagation filters (shared with C01 R01.3)
+    from . import c01 as _c01
+    _c01.check_arms(prog, view(prog, prog.one(_c01.PNC)), r2)
     r3 = rep.rule("R09.3", "inbound loop checks dominate installation")
     check_inbound(prog, r3)
     r4 = rep.rule("R09.4", "unknown attributes: transitive -> Partial, non-transitive -> dropped, for every role")
@@ -309,6 +312,24 @@ def check_inbound(prog, r):
             r.ok("is_as_loop(local_asn, confederation_id)")
         else:
             r.fail(prog.name(rs), "as-loop-args", "is_as_loop is not given (local AS, confederation id)", fv.loc(lo[0][0]))
+    # the predicate itself: the local (member) AS is always looked for, and the confederation identifier as well when set
+    lv = view(prog, prog.one(r"rustybgpd::event::export::is_as_loop"))
+    r.analysed(lv.name)
+    rend = Renderer(lv, depth=8)
+    counted = []
+    for b, t in lv.calls(re.compile(r"rustybgp_packet::bgp::Attribute::as_path_count$")):
+        who = set(expr_vars(rend.operand(t["args"][1], 8)))
+        gs = flat_guards(lv, b)
+        cond = sorted({v for g, l, h in gs for v in expr_vars(g) if v in ("local_asn", "confederation_id")})
+        counted.append((who, cond))
+    local_uncond = any(w == {"local_asn"} and not c for w, c in counted)
+    confed = any(w == {"confederation_id"} for w, c in counted)
+    if local_uncond and confed:
+        r.ok("is_as_loop: counts local_asn unconditionally and confederation_id when configured")
+    else:
+        r.fail(lv.name, "as-loop-predicate:" + ("no-local-asn" if not local_uncond else "no-confederation-id"),
+               "is_as_loop %s: inside a confederation the AS_PATH must be checked for the member AS (always) and for the confederation identifier"
+               % ("does not look for the local AS on every path" if not local_uncond else "never looks for the confederation identifier"), lv.loc())
     ru = prog.one(r"rustybgpd::event::PeerSession::rx_update")
     uv = view(prog, prog.body_key(ru))
     r.analysed(prog.name(ru))
